@@ -152,6 +152,16 @@ Definition kfin (exc : bool) : xenv -> xst -> xtree := fun _ st =>
   XDone (match st with StN => exc | StRet t => exc && negb t | StExc _ => true end).
 Definition exit_tree (prog : xstmt) (exc : bool) : xtree := exec prog None (env0 exc) (kfin exc).
 
+(** [__exit__] without a preceding [__enter__] (self.temp and self._temp_name are still None): nothing may touch the
+    file system. *)
+Definition env_unentered (exc : bool) : xenv := fun x =>
+  match x with
+  | 0 | 1 => Some VNone | 2 => Some VDest
+  | 3 | 4 | 5 => Some (if exc then VExc else VNone)
+  | _ => None
+  end.
+Definition exit_tree_unentered (prog : xstmt) (exc : bool) : xtree := exec prog None (env_unentered exc) (kfin exc).
+
 (** ** A protocol: exclusive open + the two exit trees (body returned / body raised) *)
 Record xproto := { x_excl : bool; x_ok : xtree; x_exc : xtree }.
 Definition proto_of_prog (excl : bool) (prog : xstmt) : xproto :=
